@@ -32,6 +32,7 @@ ASSUMPTIONS = ["the NVMAX bit is checked one way (need > capacity => bit), as th
                "full-vs-compact fall-back tolerance: 1e-5 + 5e-3*scale on force level fields when bit-identity does not hold"]
 NVMAX = 128
 CMP = ["qacc", "qfrc_constraint", "qpos", "qvel"]
+SLEEP_STATE = ["tree_asleep", "tree_awake", "body_awake", "ntree_awake", "nbody_awake", "nv_awake", "body_awake_ind", "dof_awake_ind"]
 
 
 def _accept(mjm):
@@ -123,7 +124,27 @@ def run(sc):
     pre_awake = pre_tree_asleep < 0  # (nworld, ntree)
     pre_q = A.qpos.numpy().copy(), A.qvel.numpy().copy()
     # N restarts each step from A's state so that the comparison is single-step
-    core.set_istate(mjm, mn, N, core.get_istate(mjm, ms, A))
+    SA = core.get_istate(mjm, ms, A)
+    core.set_istate(mjm, mn, N, SA)
+    # a capacity variant that overflowed earlier (every tree awake at the start needs all nv DOFs) rejoins the lock-step as soon as the
+    # trees awake in A fit into it again: durable state and sleep state are transplanted from A, its own compaction scratch (maps,
+    # workspaces written while it held other active sets) stays what its past left there - which is what the capacity path must cope with
+    for c in values:
+      for w in range(nworld):
+        if alive[c][w]:
+          continue
+        need_now = int(sum(int((mjm.dof_treeid == t).sum()) for t in range(mjm.ntree) if pre_awake[w, t]))
+        if need_now <= c:
+          act = np.zeros(nworld, dtype=bool)
+          act[w] = True
+          core.set_istate(mjm, ms, C[c], SA, active=act)
+          for f in SLEEP_STATE:
+            a_, b_ = getattr(C[c], f, None), getattr(A, f, None)
+            if a_ is not None and b_ is not None and a_.shape == b_.shape:
+              a_.numpy()[w] = b_.numpy()[w]
+          C[c].overflow.numpy()[w] = 0
+          alive[c][w] = True
+          fault("rejoined_after_overflow")
     with core.ForwardTap() as tap:
       for cx in cxs:
         mjw.step(cx.m, cx.d)
